@@ -235,7 +235,7 @@ def classify(f, v, stage, exn, ctx=None):
 
 def localise(f, v, o, ctx, depth=0):
     """Smallest aligned (sub-declaration, sub-value) that fails the round trip on its own at the same stage."""
-    if depth > 4:
+    if depth > 14:
         return f, v, o
     subs = SG.subcases(f, v)[:30]
     if f["t"] == "ref" and v[0] == "struct":
